@@ -1181,8 +1181,9 @@ impl Walrus {
                 if let Some(mut info) = info_guard {
                     update_state(&mut info);
                 }
-            } else {
-                // Reacquire
+            } else if start_offset.is_none() {
+                // Reacquire (a read with an explicit start offset is stateless and must
+                // not move the shared cursor)
                 let arc = {
                     let map = self.reader.data.read().unwrap();
                     map.get(col_name).cloned()
